@@ -251,7 +251,7 @@ def render_real(case, dirs, auto_reload):
         sys.setrecursionlimit(old)
 
 
-LOAD_BUDGET = 400
+LOAD_BUDGET = 2500
 RECURSION_LIMIT = 420
 
 
@@ -396,6 +396,153 @@ def modelled(case):
         for _, f in d:
             if f['kind'] == 'text' and 'body' in f and not text_ok(f['body']):
                 return False
+    return True
+
+
+# --------------------------------------------------------------------------
+# shape of a case (the shrinker deletes list items and characters blindly; only well-shaped
+# cases are judged)
+
+import re as _re
+_IDENT = _re.compile(r'^[a-z][a-z0-9]*$')
+_PATH = _re.compile(r'^[a-z0-9]+(\.[a-z0-9]+)*(/[a-z0-9]+(\.[a-z0-9]+)*)*$')
+_TEXT_OK = set('abcdefghijklmnopqrstuvwxyzABCDEFGHIJKLMNOPQRSTUVWXYZ0123456789 &<-')
+
+
+def _nodes_ok(nodes, kind, in_def, names):
+    if not isinstance(nodes, list):
+        return False
+    for n in nodes:
+        if not isinstance(n, list) or not n or not isinstance(n[0], str):
+            return False
+        k = n[0]
+        if k == 'text':
+            if len(n) != 2 or not isinstance(n[1], str) or not set(n[1]) <= _TEXT_OK:
+                return False
+        elif k in ('var', 'call'):
+            if len(n) != 2 or not isinstance(n[1], str) or not _IDENT.match(n[1]):
+                return False
+            if k == 'call' and in_def:
+                return False
+            names.setdefault('macro' if k == 'call' else 'var', set()).add(n[1])
+        elif k in ('elem', 'def', 'match'):
+            if len(n) != 3 or not isinstance(n[1], str) or not _IDENT.match(n[1]):
+                return False
+            if k == 'def':
+                names.setdefault('macro', set()).add(n[1])
+            if not _nodes_ok(n[2], kind, in_def or k == 'def', names):
+                return False
+        elif k == 'if':
+            if (len(n) != 3 or not isinstance(n[1], list) or len(n[1]) != 2 or n[1][0] not in ('var', 'not')
+                    or not isinstance(n[1][1], str) or not _IDENT.match(n[1][1])):
+                return False
+            names.setdefault('var', set()).add(n[1][1])
+            if not _nodes_ok(n[2], kind, in_def, names):
+                return False
+        elif k == 'for':
+            if len(n) != 4 or not all(isinstance(x, str) and _IDENT.match(x) for x in n[1:3]):
+                return False
+            names.setdefault('var', set()).update(n[1:3])
+            if not _nodes_ok(n[3], kind, in_def, names):
+                return False
+        elif k == 'include':
+            if len(n) != 4 or not isinstance(n[1], list) or len(n[1]) != 2:
+                return False
+            h = n[1]
+            if h[0] == 'static':
+                if not isinstance(h[1], str) or not h[1] or h[1].startswith('/') or not set(h[1]) <= set('abcdefghijklmnopqrstuvwxyz0123456789./'):
+                    return False
+            elif h[0] == 'dyn':
+                if not isinstance(h[1], list) or not any(isinstance(q, list) and q[:1] == ['var'] for q in h[1]):
+                    return False
+                for q in h[1]:
+                    if (not isinstance(q, list) or len(q) != 2 or q[0] not in ('lit', 'var') or not isinstance(q[1], str)
+                            or (q[0] == 'var' and not _IDENT.match(q[1]))
+                            or (q[0] == 'lit' and (not q[1] or not set(q[1]) <= set('abcdefghijklmnopqrstuvwxyz0123456789./')))):
+                        return False
+                    if q[0] == 'var':
+                        names.setdefault('var', set()).add(q[1])
+                if h[1][0][0] == 'lit' and h[1][0][1].startswith('/'):
+                    return False
+            else:
+                return False
+            if n[2] not in (None, 'xml', 'text'):
+                return False
+            if n[3] is not None and not _nodes_ok(n[3], kind, in_def, names):
+                return False
+        else:
+            return False
+    return True
+
+
+def _value_ok(v):
+    if isinstance(v, str):
+        return set(v) <= _TEXT_OK | set('./')
+    return isinstance(v, list) and all(_value_ok(x) for x in v)
+
+
+def valid_case(case):
+    """well-shaped: what the generators can produce, modulo sizes"""
+    try:
+        if not isinstance(case, dict) or set(case) != {'dirs', 'entry', 'data'}:
+            return False
+        dirs, entry, data = case['dirs'], case['entry'], case['data']
+        if not isinstance(dirs, list) or not dirs or not isinstance(data, dict) or not isinstance(entry, str):
+            return False
+        names = {}
+        seen_entry = False
+        for d in dirs:
+            if not isinstance(d, list):
+                return False
+            paths = set()
+            for ent in d:
+                if not isinstance(ent, list) or len(ent) != 2:
+                    return False
+                path, f = ent
+                if not isinstance(path, str) or not _PATH.match(path) or path in paths or not isinstance(f, dict):
+                    return False
+                paths.add(path)
+                if f.get('kind') not in ('markup', 'text'):
+                    return False
+                if path == entry:
+                    seen_entry = True
+                if 'raw' in f:
+                    if set(f) != {'kind', 'raw'} or f['raw'] not in ('<a>', '{% bogus %}'):
+                        return False
+                    continue
+                if set(f) != {'kind', 'body'} or not _nodes_ok(f['body'], f['kind'], False, names):
+                    return False
+                if f['kind'] == 'markup':
+                    if len(f['body']) != 1 or f['body'][0][0] != 'elem':
+                        return False
+                elif not text_ok(f['body']):
+                    # no text syntax for elements / match templates; calls: see modelled()
+                    if not _text_printable(f['body']):
+                        return False
+        if not seen_entry:
+            return False
+        for k, v in data.items():
+            if not isinstance(k, str) or not _IDENT.match(k) or not _value_ok(v):
+                return False
+        # macro names are disjoint from data and loop-variable names
+        if names.get('macro', set()) & (names.get('var', set()) | set(data)):
+            return False
+        return True
+    except (TypeError, KeyError, IndexError, AttributeError):
+        return False
+
+
+def _text_printable(nodes):
+    for n in nodes:
+        k = n[0]
+        if k in ('elem', 'match'):
+            return False
+        if k in ('if', 'def') and not _text_printable(n[2]):
+            return False
+        if k == 'for' and not _text_printable(n[3]):
+            return False
+        if k == 'include' and (n[2] is not None or n[3] != []):
+            return False
     return True
 
 
